@@ -619,13 +619,21 @@ def t_subtype_cycle(ctx, insitu):
                        "subtype cycle", "entity-head-len%d" % len(chain), sch.decls.index(r))
     n = ctx.rnd.randrange(1, 5)
     names = [ctx.name("e") for _ in range(n)]
-    txt = "\n".join("ENTITY %s\n  SUBTYPE OF (%s);\nEND_ENTITY;" % (names[i], names[(i + 1) % n]) for i in range(n))
-    k, ed = ctx.insert_decl(sch, txt)
+    parts = ["ENTITY %s\n  SUBTYPE OF (%s);\nEND_ENTITY;" % (names[i], names[(i + 1) % n]) for i in range(n)]
+    # satellites: entities outside the cycle that inherit from one or two of its members (shared subtypes, attributes):
+    # the cycle must be found whatever else hangs on it
+    sats = ctx.rnd.choice([0, 0, 1, 2, 3])
+    for _ in range(sats):
+        sups = ctx.rnd.sample(names, min(len(names), ctx.rnd.choice([1, 2, 2])))
+        body = "  %s : INTEGER;\n" % ctx.name("a") if ctx.rnd.random() < 0.5 else ""
+        sat = "ENTITY %s\n  SUBTYPE OF (%s);\n%sEND_ENTITY;" % (ctx.name("e"), ", ".join(sups), body)
+        parts.insert(ctx.rnd.randrange(len(parts) + 1), sat)
+    k, ed = ctx.insert_decl(sch, "\n".join(parts))
     members = A(*names)
     exp = [{"code": "SUBSUPER_LOOP", "args": [members]}]
     if n > 1:
         exp.append({"code": "SUBSUPER_CONTINUATION", "args": [members]})
-    return _mk(ctx, "subtype-cycle", "standalone", ed, exp, "subtype cycle", "new-cycle-len%d" % n, k)
+    return _mk(ctx, "subtype-cycle", "standalone", ed, exp, "subtype cycle", "new-cycle-len%d%s" % (n, "+satellites" if sats else ""), k)
 
 
 @template("select-cycle", listed="select cycle")
@@ -659,8 +667,18 @@ def t_select_cycle(ctx, insitu):
                        "select cycle", "select-type", k)
     n = ctx.rnd.randrange(1, 5)
     names = [ctx.name("d") for _ in range(n)]
-    txt = "\n".join("TYPE %s = SELECT (%s);\nEND_TYPE;" % (names[i], names[(i + 1) % n]) for i in range(n))
-    k, ed = ctx.insert_decl(sch, txt)
+    # each member of the cycle may also select a shared, harmless select type (listed first): the cycle must still be found
+    shared = ctx.name("d") if ctx.rnd.random() < 0.5 else None
+    parts = []
+    if shared:
+        leaf = ctx.name("e")
+        parts.append("ENTITY %s;\nEND_ENTITY;\nTYPE %s = SELECT (%s);\nEND_TYPE;" % (leaf, shared, leaf))
+    for i in range(n):
+        items = [names[(i + 1) % n]]
+        if shared and ctx.rnd.random() < 0.7:
+            items.insert(0, shared)
+        parts.append("TYPE %s = SELECT (%s);\nEND_TYPE;" % (names[i], ", ".join(items)))
+    k, ed = ctx.insert_decl(sch, "\n".join(parts))
     members = A(*names)
     exp = [{"code": "SELECT_LOOP", "args": [members]}]
     if n > 1:
